@@ -2,6 +2,7 @@
    LocalCachedMap.GetOrCreate the memory-level model (Model/RoutingMem.v) refines the value-level routing model
    (Model/Routing.v) whatever is written into the input buffers afterwards; with a shallow copy it does not. *)
 From SV Require Import Model.Common Model.Routing Model.RoutingMem Proofs.CommonFacts Proofs.RoutingProofs.
+From SV Require Model.Utf8 Spec.Utf8Spec Proofs.Utf8Proofs.
 From Coq Require Import Lia.
 Open Scope N_scope.
 
@@ -9,7 +10,8 @@ Open Scope N_scope.
 Definition repr (v : sval) (b : bytes) : Prop := forall h, read h v = b.
 
 Definition repr_pipe (mp : mpipe) (p : pipeline) : Prop :=
-  (forall h, map (read h) (mp_keys mp) = p_keys p) /\ repr (mp_id mp) (p_id p) /\ repr (mp_tag mp) (p_tag p).
+  (forall h, map (read h) (mp_keys mp) = p_keys p) /\ repr (mp_id mp) (p_id p) /\ repr (mp_tag mp) (p_tag p) /\
+  (forall h, map (read h) (mp_labels mp) = p_labels p).
 
 (* simulation relation between the memory-level state and the value-level state (one sink) *)
 Definition sim (st : rstate) (g : gstate) (lm : amap) : Prop :=
@@ -74,6 +76,22 @@ Proof.
     rewrite map_read_owned. reflexivity.
 Qed.
 
+(* the label values made from copies are heap-independent and are the value-level label values: ToValidUTF8 either
+   returns the (owned) copy itself - then the copy is valid and equal to its cleaned form - or builds a new string *)
+Lemma m_label_value_deep : forall h h' v,
+  read h' (m_label_value h (keep true h v)) = Utf8.to_valid_utf8 (read h v).
+Proof.
+  intros h h' v. unfold m_label_value, keep. cbn [read].
+  destruct (Utf8.valid (read h v)) eqn:E; cbn [read]; [|reflexivity].
+  symmetry. apply Utf8Proofs.to_valid_id. apply Utf8Proofs.valid_iff_lemma. exact E.
+Qed.
+
+Lemma m_labels_deep : forall h h' ks,
+  map (read h') (map (m_label_value h) (map (keep true h) ks)) = metric_label_values (map (read h) ks).
+Proof.
+  intros h h' ks. unfold metric_label_values. rewrite !map_map. apply map_ext. intros v. apply m_label_value_deep.
+Qed.
+
 (* one record: LocalCachedMap.GetOrCreate on references, with the deep copy, is the value-level GetOrCreate
    on the values the references have at that moment *)
 Lemma m_get_or_create_sim : forall parts st g lm ks st' i,
@@ -96,7 +114,9 @@ Proof.
       eexists. eexists. split; [reflexivity|]. split; [|reflexivity].
       unfold sim. cbn [rs_map rs_local rs_pipes g_map g_pipes]. split; [reflexivity|]. split; [reflexivity|].
       apply Forall2_app_one; [exact Hp|].
-      unfold repr_pipe. cbn. split; [intros h'; apply map_read_owned|]. split; [apply m_join_deep|exact Hrepr].
+      unfold repr_pipe. cbn [mp_keys mp_id mp_tag mp_labels p_keys p_id p_tag p_labels].
+      split; [intros h'; apply map_read_owned|]. split; [apply m_join_deep|]. split; [exact Hrepr|].
+      intros h'. apply m_labels_deep.
 Qed.
 
 Lemma m_run_sim : forall parts evs st g lm st' is vs,
@@ -122,10 +142,11 @@ Definition observe_with (h : heap) (st : rstate) : list pipeline :=
   observe {| rs_heap := h; rs_map := rs_map st; rs_local := rs_local st; rs_pipes := rs_pipes st |}.
 
 Lemma observe_repr : forall h mps ps, Forall2 repr_pipe mps ps ->
-  map (fun p => {| p_keys := map (read h) (mp_keys p); p_id := read h (mp_id p); p_tag := read h (mp_tag p) |}) mps = ps.
+  map (fun p => {| p_keys := map (read h) (mp_keys p); p_id := read h (mp_id p); p_tag := read h (mp_tag p);
+                   p_labels := map (read h) (mp_labels p) |}) mps = ps.
 Proof.
-  intros h mps ps H. induction H as [|mp p mps ps [Hk [Hi Ht]] _ IH]; cbn [map]; [reflexivity|].
-  rewrite IH, Hk, Hi, Ht. destruct p; reflexivity.
+  intros h mps ps H. induction H as [|mp p mps ps [Hk [Hi [Ht Hb]]] _ IH]; cbn [map]; [reflexivity|].
+  rewrite IH, Hk, Hi, Ht, Hb. destruct p; reflexivity.
 Qed.
 
 (* Main lemma: with the deep copy, for every sequence of buffer writes and routed records, what the
@@ -149,7 +170,8 @@ Lemma pooled_routing_own_keys_lemma :
   forall parts evs st is vs,
     m_run true parts rs_init evs = Ok (st, is, vs) ->
     forall h, Forall2 (fun t i => exists p, nth_error (observe_with h st) i = Some p /\ p_keys p = t /\
-                                  p_id p = pipeline_id t /\ build_tag parts t = Ok (p_tag p)) vs is.
+                                  p_id p = pipeline_id t /\ build_tag parts t = Ok (p_tag p) /\
+                                  p_labels p = metric_label_values t) vs is.
 Proof.
   intros parts evs st is vs H h.
   destruct (stored_values_are_copies_lemma _ _ _ _ _ H) as [g [lm [Hr Hobs]]]. rewrite Hobs.
@@ -174,11 +196,13 @@ Lemma shallow_copy_aliases :
   exists st is vs,
     m_run false alias_parts rs_init alias_events = Ok (st, is, vs) /\
     vs = [[[115;115;104;100]]] /\
-    observe st = [{| p_keys := [[99;114;111;110]]; p_id := [99;114;111;110]; p_tag := [99;114;111;110] |}].
+    observe st = [{| p_keys := [[99;114;111;110]]; p_id := [99;114;111;110]; p_tag := [99;114;111;110];
+                     p_labels := [[99;114;111;110]] |}].
 Proof. eexists. eexists. eexists. split; [vm_compute; reflexivity|]. split; vm_compute; reflexivity. Qed.
 
 Lemma deep_copy_on_alias_events :
   exists st is vs,
     m_run true alias_parts rs_init alias_events = Ok (st, is, vs) /\
-    observe st = [{| p_keys := [[115;115;104;100]]; p_id := [115;115;104;100]; p_tag := [115;115;104;100] |}].
+    observe st = [{| p_keys := [[115;115;104;100]]; p_id := [115;115;104;100]; p_tag := [115;115;104;100];
+                     p_labels := [[115;115;104;100]] |}].
 Proof. eexists. eexists. eexists. split; vm_compute; reflexivity. Qed.
